@@ -406,3 +406,109 @@ package stdlib
 //@   assert at "return strconv.FormatFloat(final, 'f', -1, 64)" : final == foldf(*equation, arr(*typedArgs), off(*typedArgs), context, len(*args)) && (forall j in [0, len(*args)) :: tokf((*typedArgs)[j], context))
 //@   assert at "return ErrorNum"#* : exists j in [0, len(*args)) :: !tokf((*typedArgs)[j], context)
 //@   loop 1 invariant 1 <= i && i <= len(*args) && final == foldf(*equation, arr(*typedArgs), off(*typedArgs), context, i) && (forall j in [0, i) :: tokf((*typedArgs)[j], context))
+
+// ---- C11: what each arithmetic / comparison operator of the function table computes ----
+// (64-bit wrap-around for the integer operators; floats as reals)
+//@ smt
+//@ (define-fun wrap64 ((wrap64!x Int)) Int (- (mod (+ wrap64!x 9223372036854775808) 18446744073709551616) 9223372036854775808))
+//@ end
+//@ func init$sumi at ""sumi":"
+//@   ensures result == wrap64(a + b)
+//@ func init$subi at ""subi":"
+//@   ensures result == wrap64(a - b)
+//@ func init$multi at ""multi":"
+//@   ensures result == wrap64(a * b)
+//@ func init$maxi at ""maxi":"
+//@   ensures result == (if a > b then a else b)
+//@ func init$mini at ""mini":"
+//@   ensures result == (if a < b then a else b)
+//@ func init$sumf at ""sumf":"
+//@   ensures result == a + b
+//@ func init$subf at ""subf":"
+//@   ensures result == a - b
+//@ func init$multf at ""multf":"
+//@   ensures result == a * b
+//@ func init$divf at ""divf":"
+//@   ensures b != 0.0 ==> result == a / b
+//@ func init$lt at ""lt":"
+//@   ensures result == (a < b)
+//@ func init$gt at ""gt":"
+//@   ensures result == (a > b)
+//@ func init$lte at ""lte":"
+//@   ensures result == (a <= b)
+//@ func init$gte at ""gte":"
+//@   ensures result == (a >= b)
+//@ func init$eq at ""eq":"
+//@   ensures result == (if a == b then "1" else "")
+//@ func init$neq at ""neq":"
+//@   ensures result == (if a != b then "1" else "")
+// the unchecked integer helpers hand every operand pair to their operator and never reject it
+//@ functype func(int, int) int
+//@   params (this, a, b)
+//@   pure
+//@   ensures result == opi(this, a, b)
+//@ smt
+//@ (declare-fun opi (Int Int Int) Int)
+//@ (declare-fun cmpf (Int Real Real) Bool)
+//@ (declare-fun eqs (Int Str Str) Str)
+//@ (define-fun-rec folds ((e Int) (a (Array Int Int)) (o Int) (c Int) (n Int)) Str
+//@   (ite (<= n 1) (app (select a o) c) (eqs e (folds e a o c (- n 1)) (app (select a (+ o (- n 1))) c))))
+//@ end
+//@ func arithmaticHelperi$1
+//@   ensures result0 == opi(*equation, a, b) && result1
+// lt / gt / lte / gte: both operands are numbers => "1" exactly when the test holds; else <BAD-TYPE>
+//@ functype func(float64, float64) bool
+//@   params (this, a, b)
+//@   pure
+//@   ensures result == cmpf(this, a, b)
+//@ func arithmaticEqualityHelper$1$1
+//@   ensures [bad-left] !tokf(*leftArg, context) ==> result == "<BAD-TYPE>"
+//@   ensures [bad-right] tokf(*leftArg, context) && !tokf(*rightArg, context) ==> result == "<BAD-TYPE>"
+//@   ensures [test] tokf(*leftArg, context) && tokf(*rightArg, context) ==> result == (if cmpf(*test, tvf(*leftArg, context), tvf(*rightArg, context)) then "1" else "")
+// eq / neq (and any string operator): a left fold over ALL arguments
+//@ functype func(string, string) string
+//@   params (this, a, b)
+//@   pure
+//@   ensures result == eqs(this, a, b)
+//@ func stringComparator$1$1
+//@   ensures [fold] result == folds(*equation, arr(*args), off(*args), context, len(*args))
+//@   loop 1 invariant 1 <= i && i <= len(*args) && val == folds(*equation, arr(*args), off(*args), context, i)
+// isnum: "1" exactly for what strconv.ParseFloat accepts
+//@ func kfIsNum$1
+//@   ensures result == (if float_ok(app((*args)[0], context)) then "1" else "")
+// upper / lower
+//@ smt
+//@ (declare-fun str_upper (Str) Str)
+//@ end
+//@ extern strings.ToUpper
+//@   params (s)
+//@   pure
+//@   ensures result == str_upper(s)
+//@ func kfUpper$1
+//@   ensures result == str_upper(app((*args)[0], context))
+//@ func kfLower$1
+//@   ensures result == str_lower(app((*args)[0], context))
+// helpers that parse one number and hand it to a formatter: the number handed on is the value of
+// the argument, anything unparsable yields <BAD-TYPE>
+//@ func kfHumanizeInt$1
+//@   ensures [bad-type] !int_ok(app((*args)[0], context)) ==> result == "<BAD-TYPE>"
+//@   assert at "return humanize.Hi32(" : $arg0 == atoi(app((*args)[0], context))
+//@ func kfHumanizeFloat$1
+//@   ensures [bad-type] !float_ok(app((*args)[0], context)) ==> result == "<BAD-TYPE>"
+//@   assert at "return humanize.Hf(" : $arg0 == atof(app((*args)[0], context))
+//@ func kfDownscale$1
+//@   ensures [bad-type] !int_ok(app((*args)[0], context)) ==> result == "<BAD-TYPE>"
+//@   assert at "return humanize.AlwaysDownscale(" : $arg0 == atoi(app((*args)[0], context)) && $arg1 == *precision
+// percent: (val - min) * 100 / (max - min) with the configured number of decimals
+//@ func kfPercent$1
+//@   ensures [bad-type] tokf(*stageMin, context) && tokf(*stageMax, context) && !float_ok(app((*args)[0], context)) ==> result == "<BAD-TYPE>"
+//@   assert at "ret = strconv.AppendFloat(ret," : tvf(*stageMax, context) != tvf(*stageMin, context) ==> $arg1 == (atof(app((*args)[0], context)) - tvf(*stageMin, context)) * 100.0 / (tvf(*stageMax, context) - tvf(*stageMin, context)) && $arg3 == *decimals
+// round: the value printed is the value of the argument, with the configured precision
+//@ func kfRound$1
+//@   ensures [bad-type] !float_ok(app((*args)[0], context)) ==> result == "<BAD-TYPE>"
+//@   assert at "return strconv.FormatFloat(" : $arg0 == atof(app((*args)[0], context)) && $arg2 == *precision
+// ceil / floor
+//@ func init$ceil at ""ceil":"
+//@   ensures -9223372036854775808.0 <= f && f <= 9223372036854775807.0 ==> real(result) == rceil(f)
+//@ func init$floor at ""floor":"
+//@   ensures -9223372036854775808.0 <= f && f <= 9223372036854775807.0 ==> real(result) == rfloor(f)
